@@ -2,7 +2,7 @@
    Statements only; every proof is `exact <lemma>`.  The statements are about every schedule
    (label list) of the supervisor model, any number and mix of runnables. *)
 From Coq Require Import List Bool Arith.
-From GS Require Import LTS Supervisor SupAccept SupProps SupInv SupGate SupResult.
+From GS Require Import LTS Supervisor SupAccept SupProps SupInv SupGate SupResult SupPending.
 Import ListNotations.
 
 (* No later runnable's Run is invoked until every Stateable runnable registered before it has
@@ -49,3 +49,60 @@ Proof. eexists. split; vm_compute; reflexivity. Qed.
 (* ... and the monitor rejects a trace in which the second Run starts before readiness *)
 Example C03_ex_rejects : c03_gate c03_cfg [ERunCall 0; EPoll 0 false; ERunCall 1] = false.
 Proof. vm_compute. reflexivity. Qed.
+
+(* ---- the "pending error" clause (fix 8eb6141) ---- *)
+
+(* The monitor c03_pending ("after a real error was returned and the system was then observed
+   quiescent, no runnable is started") is FALSE of the model: SupPending.pend_sched - the parent
+   context is cancelled while the failure is queued, the readiness wait takes ctx.Done. *)
+Theorem C03_pending_refuted :
+  exists c ls s, run (step c) (init c) ls = Some s /\ c03_pending c (obs_trace obs ls) = false.
+Proof. exact c03_pending_refuted. Qed.
+
+(* With the exception C03 itself makes (the trace shows the supervisor's context was cancelled) it
+   holds on every schedule. *)
+Theorem C03_pending_nc : forall c ls s,
+  run (step c) (init c) ls = Some s -> c03_pending_nc c (obs_trace obs ls) = true.
+Proof. exact sup_c03_pending_nc. Qed.
+
+(* The gate itself: while a failure is queued and the context is not cancelled, no step of any
+   goroutine opens a readiness gate: Main stays at the gate with the failure still queued or fixes
+   its result (and then never starts anything: C03_abort), and no runnable is started. *)
+Theorem C03_pending_gate : forall c s l s',
+  at_gate s -> errq s <> [] -> ctx_done s = false -> step c s l = Some s' ->
+  ((at_gate s' /\ errq s' <> []) \/ decided s') /\ launched s' = launched s.
+Proof. exact sup_c03_pending_gate. Qed.
+
+(* A quiescent state after some runnable returned a real error: no goroutine is about to call Run,
+   and Main has fixed its result or is inside a slow IsRunning() call with the failure queued. *)
+Theorem C03_pending_quiescent : forall c s,
+  0 < nrun c -> reachable_sup c s -> quiescent c s = true -> real_in (hist s) = true ->
+  (forall i, rn_at s i <> RnLaunched) /\ (decided s \/ (errq s <> [] /\ at_gate s)).
+Proof. exact sup_c03_pending_quiescent. Qed.
+
+Print Assumptions C03_pending_refuted.
+Print Assumptions C03_pending_nc.
+Print Assumptions C03_pending_gate.
+Print Assumptions C03_pending_quiescent.
+
+(* non-vacuity: runnable 0 became ready but failed before the gate looked: the gate does not open *)
+Definition c03_pend_sched : list label :=
+  [LLaunch 0; LRunCall 0; LMonSub 0; LMonRecv 0; LPollBegin 0; LRunRet 0 (Some (7, false)); LErrSend 0; LQuiet;
+   LPoll 0 true].
+Example C03_ex_pending_gate :
+  exists s s', run (step pend_cfg) (init pend_cfg) c03_pend_sched = Some s /\
+               main s = MGateCheck 0 /\ errq s = [7] /\ ctx_done s = false /\
+               step pend_cfg s (LGateDecide 0) = Some s' /\ main s' = MExit (ResErr 7).
+Proof.
+  eexists. eexists. split; [vm_compute; reflexivity|]. split; [vm_compute; reflexivity|].
+  split; [vm_compute; reflexivity|]. split; [vm_compute; reflexivity|]. split; vm_compute; reflexivity.
+Qed.
+Example C03_ex_pending_rejects :
+  c03_pending_nc pend_cfg [ERunCall 0; EPollBegin 0; ERunRet 0 (Some (7, false)); EQuiet; EPoll 0 true; ERunCall 1] = false.
+Proof. vm_compute. reflexivity. Qed.
+(* the refuting schedule is accepted by the corrected monitor only because of EParentCancel *)
+Example C03_ex_pending_cancelled :
+  obs_trace obs pend_sched =
+    [ERunCall 0; EPollBegin 0; ERunRet 0 (Some (7, false)); EQuiet; EParentCancel; EPoll 0 false; ERunCall 1]
+  /\ c03_pending_nc pend_cfg (obs_trace obs pend_sched) = true.
+Proof. split; vm_compute; reflexivity. Qed.
